@@ -2,8 +2,7 @@ import Clikit.Lemmas.Section
 import Clikit.Model.SectionIndent
 /-!
 Lemmas for the indentation layer of C15: an indented history is simulated by the base history on the
-padded lines (`flat`) - the states agree always, the streams whenever no empty line is written at a
-positive indentation.
+indented lines (`flat`): same sections, same stream.
 -/
 namespace Clikit.Section
 open Clikit.Term
@@ -16,58 +15,28 @@ theorem normLines_of_ne_nil {ls : List Str} (h : ls ≠ []) : normLines ls = ls 
   | nil => exact absurd rfl h
   | cons a b => rfl
 
-theorem normLines_map_pad (n : Nat) (ls : List Str) :
-    normLines ((normLines ls).map (pad n)) = (normLines ls).map (pad n) :=
+theorem normLines_map_emit (n : Nat) (ls : List Str) :
+    normLines ((normLines ls).map (emitLine n)) = (normLines ls).map (emitLine n) :=
   normLines_of_ne_nil (by simpa using normLines_ne_nil ls)
 
 theorem pad_zero (l : Str) : pad 0 l = l := by simp [pad]
 
-theorem emitLine_eq_pad {n : Nat} {l : Str} (h : n = 0 ∨ l.isEmpty = false) : emitLine n l = pad n l := by
-  rcases h with h | h
-  · subst h
-    simp only [emitLine, pad_zero]
-    split <;> rfl
-  · simp [emitLine, h]
+theorem emitLine_zero (l : Str) : emitLine 0 l = l := by
+  simp only [emitLine, pad_zero]
+  split <;> rfl
 
-theorem blankSafeOp_lines {n : Nat} {o : Op} (h : blankSafeOp n o = true) :
-    ∀ l ∈ opLines o, n = 0 ∨ l.isEmpty = false := by
-  intro l hl
-  simp only [blankSafeOp, Bool.or_eq_true, beq_iff_eq, List.all_eq_true, Bool.not_eq_true'] at h
-  rcases h with h | h
-  · exact Or.inl h
-  · exact Or.inr (h l hl)
+theorem writeSecI_eq (w n : Nat) (a : List Sec) (s : Sec) (ls : List Str) :
+    writeSecI w a s n ls = writeSec w a s ((normLines ls).map (emitLine n)) := by
+  simp only [writeSecI, writeSec, normLines_map_emit]
 
-theorem map_emit_eq_map_pad {n : Nat} {ls : List Str} (h : ∀ l ∈ ls, n = 0 ∨ l.isEmpty = false) :
-    ls.map (fun l => Cmd.print (emitLine n l)) = (ls.map (pad n)).map Cmd.print := by
-  rw [List.map_map]
-  apply List.map_congr_left
-  intro l hl
-  simp [emitLine_eq_pad (h l hl)]
+theorem overwriteSecI_eq (w n : Nat) (a : List Sec) (s : Sec) (ls : List Str) :
+    overwriteSecI w a s n ls = overwriteSec w a s ((normLines ls).map (emitLine n)) := by
+  simp only [overwriteSecI, overwriteSec, writeSecI_eq]
 
-theorem writeSecI_eq {w n : Nat} (a : List Sec) (s : Sec) {ls : List Str}
-    (h : ∀ l ∈ normLines ls, n = 0 ∨ l.isEmpty = false) :
-    writeSecI w a s n ls = writeSec w a s ((normLines ls).map (pad n)) := by
-  simp only [writeSecI, writeSec, normLines_map_pad, map_emit_eq_map_pad h]
-
-theorem overwriteSecI_fst (w n : Nat) (a : List Sec) (s : Sec) (ls : List Str) :
-    (overwriteSecI w a s n ls).1 = (overwriteSec w a s ((normLines ls).map (pad n))).1 := rfl
-
-theorem overwriteSecI_eq {w n : Nat} (a : List Sec) (s : Sec) {ls : List Str}
-    (h : ∀ l ∈ normLines ls, n = 0 ∨ l.isEmpty = false) :
-    overwriteSecI w a s n ls = overwriteSec w a s ((normLines ls).map (pad n)) := by
-  simp only [overwriteSecI, overwriteSec, writeSecI_eq _ _ h]
-
-theorem modify_fst_congr (secs : List Sec) (i : Nat) {f g : List Sec → Sec → Sec × List Cmd}
-    (h : ∀ a s, (f a s).1 = (g a s).1) : (modify secs i f).1 = (modify secs i g).1 := by
-  unfold modify
-  cases locate secs i with
-  | none => rfl
-  | some p => obtain ⟨a, s, b⟩ := p; simp only [h a s]
-
-/-- the STATE after an operation at indentation `n` is the state of the base model after the padded
-operation -/
-theorem stepI_fst (ansi : Bool) (w : Nat) (secs : List Sec) (n : Nat) (o : Op) :
-    (stepI ansi w secs n o).1 = (step ansi w secs (padOp n o)).1 := by
+/-- an operation at indentation `n` is the base operation on the indented lines: same sections, same
+stream -/
+theorem stepI_eq (ansi : Bool) (w : Nat) (secs : List Sec) (n : Nat) (o : Op) :
+    stepI ansi w secs n o = step ansi w secs (padOp n o) := by
   cases o with
   | create => rfl
   | clear i => rfl
@@ -75,75 +44,51 @@ theorem stepI_fst (ansi : Bool) (w : Nat) (secs : List Sec) (n : Nat) (o : Op) :
   | write i ls =>
     simp only [stepI, padOp, step]
     cases ansi
-    · simp only [Bool.false_eq_true, if_false]; split <;> rfl
+    · simp only [Bool.false_eq_true, if_false, normLines_map_emit, List.map_map]; rfl
     · simp only [if_true]
-      exact modify_fst_congr secs i (fun a s => rfl)
-  | overwrite i ls =>
-    simp only [stepI, padOp, step]
-    cases ansi
-    · simp only [Bool.false_eq_true, if_false]; split <;> rfl
-    · simp only [if_true]
-      exact modify_fst_congr secs i (fun a s => overwriteSecI_fst w n a s ls)
-
-/-- ... and so is the STREAM when no empty line is written at a positive indentation -/
-theorem stepI_eq (ansi : Bool) (w : Nat) (secs : List Sec) (n : Nat) (o : Op)
-    (h : blankSafeOp n o = true) : stepI ansi w secs n o = step ansi w secs (padOp n o) := by
-  have hl := blankSafeOp_lines h
-  cases o with
-  | create => rfl
-  | clear i => rfl
-  | clearN i k => rfl
-  | write i ls =>
-    have hl' : ∀ l ∈ normLines ls, n = 0 ∨ l.isEmpty = false := hl
-    simp only [stepI, padOp, step]
-    cases ansi
-    · simp only [Bool.false_eq_true, if_false, normLines_map_pad, map_emit_eq_map_pad hl']
-    · simp only [if_true]
-      have : (fun a s => writeSecI w a s n ls) = (fun a s => writeSec w a s ((normLines ls).map (pad n))) := by
-        funext a s; exact writeSecI_eq a s hl'
+      have : (fun a s => writeSecI w a s n ls) =
+          (fun a s => writeSec w a s ((normLines ls).map (emitLine n))) := by
+        funext a s; exact writeSecI_eq w n a s ls
       rw [this]
   | overwrite i ls =>
-    have hl' : ∀ l ∈ normLines ls, n = 0 ∨ l.isEmpty = false := hl
     simp only [stepI, padOp, step]
     cases ansi
-    · simp only [Bool.false_eq_true, if_false, normLines_map_pad, map_emit_eq_map_pad hl']
+    · simp only [Bool.false_eq_true, if_false, normLines_map_emit, List.map_map]; rfl
     · simp only [if_true]
       have : (fun a s => overwriteSecI w a s n ls) =
-          (fun a s => overwriteSec w a s ((normLines ls).map (pad n))) := by
-        funext a s; exact overwriteSecI_eq a s hl'
+          (fun a s => overwriteSec w a s ((normLines ls).map (emitLine n))) := by
+        funext a s; exact overwriteSecI_eq w n a s ls
       rw [this]
 
-/-- the whole history: states agree, streams agree when `blankSafe` -/
+/-- the whole history -/
 theorem runI_sim (ansi : Bool) (w : Nat) (iops : List IOp) : ∀ (st : IState),
     (runI ansi w st iops).1.secs = (run ansi w st.secs (flat st.ind iops)).1 ∧
-    (blankSafe st.ind iops = true → (runI ansi w st iops).2 = (run ansi w st.secs (flat st.ind iops)).2) := by
+    (runI ansi w st iops).2 = (run ansi w st.secs (flat st.ind iops)).2 := by
   induction iops with
-  | nil => intro st; exact ⟨rfl, fun _ => rfl⟩
+  | nil => intro st; exact ⟨rfl, rfl⟩
   | cons op r ih =>
     intro st
     cases op with
     | create n =>
       have h := ih { secs := { content := [], rows := 0 } :: st.secs, ind := st.ind ++ [n] }
-      simp only [runI, stepIO, flat, run, step, blankSafe, List.nil_append]
+      simp only [runI, stepIO, flat, run, step, List.nil_append]
       exact h
     | indent i n =>
       have h := ih { st with ind := setAt n i st.ind }
-      simp only [runI, stepIO, flat, blankSafe, List.nil_append]
+      simp only [runI, stepIO, flat, List.nil_append]
       exact h
     | op o =>
       have h := ih { st with secs := (stepI ansi w st.secs (indOf st.ind (target o)) o).1 }
-      simp only [runI, stepIO, flat, run, blankSafe, Bool.and_eq_true]
-      rw [← stepI_fst]
-      refine ⟨h.1, ?_⟩
-      intro hs
-      rw [h.2 hs.2, stepI_eq ansi w st.secs _ o hs.1]
+      simp only [runI, stepIO, flat, run]
+      rw [← stepI_eq]
+      exact ⟨h.1, by rw [h.2]⟩
 
 /-- a history without indentation is the base history (up to `normLines`, which `step` applies anyway) -/
 theorem step_padOp_zero (ansi : Bool) (w : Nat) (secs : List Sec) (o : Op) :
     step ansi w secs (padOp 0 o) = step ansi w secs o := by
-  have hm : ∀ ls : List Str, (normLines ls).map (pad 0) = normLines ls := by
+  have hm : ∀ ls : List Str, (normLines ls).map (emitLine 0) = normLines ls := by
     intro ls
-    rw [List.map_congr_left (fun l _ => pad_zero l), List.map_id']
+    rw [List.map_congr_left (fun l _ => emitLine_zero l), List.map_id']
   have hn : ∀ ls : List Str, normLines (normLines ls) = normLines ls :=
     fun ls => normLines_of_ne_nil (normLines_ne_nil ls)
   cases o with
